@@ -5,6 +5,7 @@ cd $wt || exit 2
 git checkout -q -- . 
 for d in _mutants/C*-m*; do
   [ -f $d/patch.diff ] || continue
+  [ -f $d/confirm.txt ] && continue
   id=$(basename $d)
   git checkout -q -- .
   if ! git apply $d/patch.diff 2>/dev/null; then echo "$id APPLY-FAIL" | tee $d/confirm.txt; continue; fi
